@@ -188,7 +188,7 @@ func c09Record(dir string, cfg c09Config) (b0 []byte, ops []lite.VfsOp, endDB, e
 }
 
 func runC09(r *ev.Run) {
-	r.Rule = "real SQLite write transactions (one-row autocommit update, small update, spilling bulk insert with cache_size=1, file-growing insert, delete with auto-vacuum truncation, schema change, spilled rollback, the first transaction ever on a file of 0 bytes, a writer with synchronous=OFF whose journal header carries the record count 0xFFFFFFFF) recorded under a logging VFS, journal modes DELETE/TRUNCATE/PERSIST, page sizes {512 (+1024, 4096 thorough)}, sector sizes {512, 4096}; for the log of N file operations: every prefix 0..N (the writer process dies before operation k; completed system calls persist) and for every write its torn variants (first 512 bytes, first half rounded to 512; for small writes every 4-byte prefix); oracle: real SQLite opens a copy of the pair, performs its own recovery and dumps it; sqlittle on the original either fails or returns exactly that dump; every image is read by a fresh handle and by handles opened before the writer started: one that read everything, one that was only opened, one that only listed the tables, (operation boundaries) one that was refused a read once while another process held EXCLUSIVE, and a fresh handle while another process is in the middle of a read; from the commit point on (journal deleted / truncated / header zeroed) and before the first operation it must succeed. conformance: replaying the whole log reproduces the files the real run left behind, byte for byte. non-trivial = images with a journal on disk"
+	r.Rule = "real SQLite write transactions (one-row autocommit update, small update, spilling bulk insert with cache_size=1, file-growing insert, delete with auto-vacuum truncation, schema change, spilled rollback, the first transaction ever on a file of 0 bytes, a writer with synchronous=OFF whose journal header carries the record count 0xFFFFFFFF) recorded under a logging VFS, journal modes DELETE/TRUNCATE/PERSIST, page sizes {512 (+1024, 4096 thorough)}, sector sizes {512, 4096}; for the log of N file operations: every prefix 0..N (the writer process dies before operation k; completed system calls persist) and for every write its torn variants (first 512 bytes, first half rounded to 512; for small writes every 4-byte prefix); oracle: real SQLite opens a copy of the pair, performs its own recovery and dumps it; sqlittle on the original either fails or returns exactly that dump; every image is read by a fresh handle (operation boundaries: also one that opens the file through a symbolic link, by a relative name, and through `link/../name` behind a symbolically linked directory) and by handles opened before the writer started: one that read everything, one that was only opened, one that only listed the tables, (operation boundaries) one that was refused a read once while another process held EXCLUSIVE, and a fresh handle while another process is in the middle of a read; from the commit point on (journal deleted / truncated / header zeroed) and before the first operation it must succeed. conformance: replaying the whole log reproduces the files the real run left behind, byte for byte. non-trivial = images with a journal on disk"
 	dir := ev.TmpDir("c09")
 	defer os.RemoveAll(dir)
 	c09Peers = make(chan *Peer, 8)
@@ -323,6 +323,10 @@ func runC09(r *ev.Run) {
 			c09ImageKind(r, dir, fmt.Sprintf("c%d-o%d", ci, ii), cfg, &f, desc, mustSucceed, im.k, opsS, b0, "opened-only")
 			c09ImageKind(r, dir, fmt.Sprintf("c%d-s%d", ci, ii), cfg, &f, desc, mustSucceed, im.k, opsS, b0, "schema-only")
 			if im.torn < 0 {
+				// a fresh handle that opens the file by another of its names
+				for _, kind := range []string{"fresh-by-symlink", "fresh-by-relative-name", "fresh-by-dotdot-behind-a-symlinked-directory"} {
+					c09ImageKind(r, dir, fmt.Sprintf("c%d-n%d", ci, ii), cfg, &f, desc, mustSucceed, im.k, opsS, nil, kind)
+				}
 				// ... or was refused a read once (another process held the EXCLUSIVE lock), then read fine
 				c09ImageKind(r, dir, fmt.Sprintf("c%d-r%d", ci, ii), cfg, &f, desc, mustSucceed, im.k, opsS, b0, "refused-before")
 				// ... and a fresh handle while ANOTHER process is in the middle of a read (holds SHARED): the dead
@@ -363,6 +367,34 @@ func c09ImageKind(r *ev.Run, dir, name string, cfg c09Config, f *c09Files, desc 
 		}
 	}()
 	handle := "fresh"
+	// the name the file is opened by is an input too: SQLite names the journal after the file itself (symbolic
+	// links followed, made absolute when the file is opened), whatever name the caller used
+	openName := orig
+	if before == nil && kind != "" {
+		handle = kind
+		switch kind {
+		case "fresh-by-symlink":
+			openName = filepath.Join(dir, name+"-link"+ext)
+			os.Symlink(orig, openName)
+			defer os.Remove(openName)
+		case "fresh-by-relative-name":
+			if cwd, err := os.Getwd(); err == nil {
+				if rel, err := filepath.Rel(cwd, orig); err == nil {
+					openName = rel
+				}
+			}
+		case "fresh-by-dotdot-behind-a-symlinked-directory":
+			// <dir>/<name>-d/x/y is a directory, <dir>/<name>-s a link to it: <name>-s/../f is <name>-d/x/f
+			deep := filepath.Join(dir, name+"-d", "x", "y")
+			os.MkdirAll(deep, 0o755)
+			defer os.RemoveAll(filepath.Join(dir, name+"-d"))
+			lnk := filepath.Join(dir, name+"-s")
+			os.Symlink(deep, lnk)
+			defer os.Remove(lnk)
+			orig = filepath.Join(dir, name+"-d", "x", name+ext)
+			openName = lnk + "/../" + name + ext
+		}
+	}
 	if before != nil && len(before) == 0 {
 		return // no handle can have been opened on a file of 0 bytes
 	}
@@ -468,7 +500,7 @@ func c09ImageKind(r *ev.Run, dir, name string, cfg c09Config, f *c09Files, desc 
 		e := long
 		if e == nil {
 			var err error
-			e, err = OpenEnv(orig)
+			e, err = OpenEnv(openName)
 			if err != nil {
 				gerr = err
 				return
